@@ -530,8 +530,13 @@ def do_full_backup(options):
     options.full = True
     tnow = gen_filedate(options)
     dest = os.path.join(options.repository, gen_filename(options, now=tnow))
-    if os.path.exists(dest):
-        raise WouldOverwriteFiles('Cannot overwrite existing file: %s' % dest)
+    # (Every backup writes an index file: there is one if any backup, full
+    # or incremental, was made in this very second.)
+    for path in dest, os.path.join(options.repository,
+                                   gen_filename(options, '.index', tnow)):
+        if os.path.exists(path):
+            raise WouldOverwriteFiles(
+                'Cannot overwrite existing file: %s' % path)
     # Find the file position of the last completed transaction.
     fs = FileStorage(options.file, read_only=True)
     # Note that the FileStorage ctor calls read_index() which scans the file
@@ -563,8 +568,13 @@ def do_incremental_backup(options, reposz, repofiles):
     options.full = False
     tnow = gen_filedate(options)
     dest = os.path.join(options.repository, gen_filename(options, now=tnow))
-    if os.path.exists(dest):
-        raise WouldOverwriteFiles('Cannot overwrite existing file: %s' % dest)
+    # (Every backup writes an index file: there is one if any backup, full
+    # or incremental, was made in this very second.)
+    for path in dest, os.path.join(options.repository,
+                                   gen_filename(options, '.index', tnow)):
+        if os.path.exists(path):
+            raise WouldOverwriteFiles(
+                'Cannot overwrite existing file: %s' % path)
     # Find the file position of the last completed transaction.
     fs = FileStorage(options.file, read_only=True)
     # Note that the FileStorage ctor calls read_index() which scans the file
